@@ -268,6 +268,8 @@ class ElementList(MutableSequence):
         """
         if self._can_add_child(child):
             if self.element == child.parent:
+                if any(c is child for c in self.list):  # already a child of this element
+                    return
                 self._remove_from_traversal_index(child)
                 self.list.append(child)
                 try:
@@ -494,7 +496,15 @@ class ElementList(MutableSequence):
     def _can_add_child(self, child):
         if self.element._is_valid_child(child):
             if child.parent != self.element and child.traversal_parent != self.element:  # avoid infinite recursion
-                child.parent = self.element
+                previous_parent = child.parent
+                try:
+                    child.parent = self.element
+                except Exception:
+                    child._parent = previous_parent  # the child has been refused: it stays where it was
+                    raise
+                if previous_parent is not None and any(c is child for c in previous_parent.children):
+                    # an element is the child of one parent only: it leaves the previous one
+                    previous_parent.children.remove(child)
             else:
                 # if validation is strict, check the child cardinality
                 if Validator.is_strict(self.element.validation_level):
